@@ -497,7 +497,8 @@ pub fn rx_float_range(
                         "\\.{}",
                         lexi_range(&ld, &rd, left_inclusive, right_inclusive)?
                     );
-                    if ld.parse::<i64>().unwrap_or(0) == 0 {
+                    // the bare integer literal denotes `left` itself: only allowed if `left` is included
+                    if ld.parse::<i64>().unwrap_or(0) == 0 && left_inclusive {
                         Ok(format!("({left_rec}({suff})?)"))
                     } else {
                         Ok(format!("({left_rec}{suff})"))
